@@ -246,6 +246,15 @@ def run(ctx):
             unclosed_want[len(mtexts)] = u[1]
             mtexts.append(u[0])
             mkinds["unclosed-procedure"] += 1
+    # deep nesting: exact expectation.  The recursion of the parser is bounded by the 64 MiB thread stack only; in the debug build
+    # that is about 2500 nested blocks and fewer than 1000 nested if / while statements (a resource limit, DESIGN 10.6), so blocks
+    # go to 1300 levels here and if / while to 400
+    for depth in [30, 400, 999, 1000, 1001, 1024] + [rng.randrange(1002, 1300) for _ in range(4 if ctx.thorough() else 1)]:
+        opener = rng.choice(["{", "if (1 = 1) {", "while (1 = 1) {"]) if depth <= 400 else "{"
+        t = ("proc deep() {\n" + (opener + "\n") * depth + "}\n" * depth + "}\n// doc\nproc main() {\n}\n")
+        unclosed_want[len(mtexts)] = [(0, 2 * depth + 1), (2 * depth + 3, 2 * depth + 4)]
+        mtexts.append(t)
+        mkinds["deep-nesting"] += 1
     mres = observe(exe, mtexts, "c17m")
     lap("server_malformed")
     mmod = model(judge, mtexts) if judge else None
@@ -260,7 +269,8 @@ def run(ctx):
             hist["malformed-ranges:%d" % min(len(rs), 4)] += 1
             w = "unexpected shape" if rs is None else H.fold_wellformed(rs, H.Geometry(t).last_line())
             if not w and i in unclosed_want and rs != unclosed_want[i]:
-                w = ("ranges %r, expected %r: a procedure that lost its closing brace ends on the line of its last remaining token, "
+                w = ("ranges %r, expected %r: every procedure reaches from the line of `proc` to the line of its closing brace (deep "
+                     "nesting), and a procedure that lost its closing brace ends on the line of its last remaining token, "
                      "the other procedures keep their extents" % (rs, unclosed_want[i]))
             if w:
                 wf_fail.append((i, w))
